@@ -145,7 +145,7 @@ impl Core {
       // Since RAM is invalidated by writes, it's messy to compile and track
       // code found in RAM. Only ROM code should be recompiled, the rest
       // should be interpreted.
-      if can_dynarec(ip) {
+      if can_dynarec(ip) && !self.cut_by_end_of_rom(ip) {
         // cached blocks in the switchable area belong to the bank they were
         // translated from
         self.cache.set_rom_bank(self.memory.get_rom_bank());
@@ -190,6 +190,24 @@ impl Core {
     // catch up memmapped devices
     self.memory.run_clock_cycles(cycles_consumed.to_clock_cycles());
     self.handle_interrupt();
+  }
+
+  /// An instruction in the last two bytes of ROM may continue in video RAM. Its
+  /// operand bytes can change at any time, so a block that begins with such an
+  /// instruction is interpreted, never translated and cached.
+  #[cfg(feature = "jit")]
+  fn cut_by_end_of_rom(&self, ip: usize) -> bool {
+    if ip < 0x7ffe || ip >= 0x8000 {
+      return false;
+    }
+    let mem_ptr = self.memory.as_ptr();
+    let bytes = [
+      crate::mem::memory_read_byte(mem_ptr, ip as u16),
+      crate::mem::memory_read_byte(mem_ptr, (ip + 1) as u16),
+      crate::mem::memory_read_byte(mem_ptr, (ip + 2) as u16),
+    ];
+    let (_, length, _) = crate::decoder::decode(&bytes);
+    ip + length > 0x8000
   }
 
   pub fn run_interp(&mut self) {
